@@ -1,7 +1,7 @@
 (* C17 — xarray export/import is lossless and uses cell centres as coordinates.
    ONLY statements, each closed by [exact] of a lemma proved in proofs/, followed by
    Print Assumptions. *)
-From DF Require Import Prelude Constants_gen Region Mesh Xarray C17_xarray.
+From DF Require Import Prelude Constants_gen Region Mesh Xarray C17_xarray C17_rebuild.
 Open Scope Q_scope.
 
 (* the exported attributes, coordinate units, data, dtype, dimension names *)
@@ -101,3 +101,246 @@ Theorem C17_mesh_by_cell_exact : forall (r : region) (ks : list Z) (cs : list Q)
   mesh_by_cell r cs = OK (mkMesh r ks "" []).
 Proof. exact by_cell_axes. Qed.
 Print Assumptions C17_mesh_by_cell_exact.
+
+Example C17_axes_nonvacuous : axes [0] [4] [4%Z] [1].
+Proof. exact ex_axes. Qed.
+Print Assumptions C17_axes_nonvacuous.
+
+(* every accepted import, any number of axes, any attribute subset, in terms of the effective
+   quantities of the model: eff_cell (the cell attribute wins over the mean spacing), eff_p1 /
+   eff_p2 (the pmin / pmax attribute wins over  first - cell/2  /  last + cell/2, where cell is
+   the EFFECTIVE cell), eff_units (coordinate units only if every axis has them), eff_tf.
+   Acceptance = the effective cell divides the effective edges exactly ([axes]). *)
+Theorem C17_import_accepts : forall (xa : dataarray) (k : Z) (cs : list Q) (ks : list Z) (vd : option (list string)),
+  a_nvdim xa = Some k -> (1 <= k)%Z -> ((1 < k)%Z -> In vdims_name (xdims xa)) ->
+  forallb (evenly 1) (xcoords xa) = true ->
+  eff_cell xa = OK cs ->
+  axes (eff_p1 xa cs) (eff_p2 xa cs) ks cs -> ks <> [] ->
+  length (geo_dims xa) = length ks -> nodupb (geo_dims xa) = true ->
+  match all_some (xcunits xa) with Some u => length u = length ks | None => True end ->
+  set_vdims k (xvdims xa) = OK vd -> shape_ok xa k ks = true ->
+  from_xarray xa =
+  OK (mkField (mkMesh (mkRegion (eff_p1 xa cs) (eff_p2 xa cs) (geo_dims xa)
+                                (eff_units xa (length ks)) (eff_tf xa)) ks "" [])
+              k vd (xdtype xa) None (xdata xa)).
+Proof. exact import_accepts. Qed.
+Print Assumptions C17_import_accepts.
+
+(* attribute-free reconstruction, all axes at once: coordinates x0_a + j*c_a (j < k_a, k_a >= 2,
+   c_a > 0) and no cell/pmin/pmax attributes give the mesh with corners x0_a - c_a/2 and
+   x0_a + (k_a - 1/2)*c_a, n = k, the data, dtype, labels unchanged *)
+Theorem C17_rebuild : forall (xa : dataarray) (k : Z) (x0s cs : list Q) (ks : list Z) (vd : option (list string)),
+  a_nvdim xa = Some k -> (1 <= k)%Z -> ((1 < k)%Z -> In vdims_name (xdims xa)) ->
+  a_cell xa = None -> a_pmin xa = None -> a_pmax xa = None ->
+  xcoords xa = prog_coords x0s cs ks ->
+  x0s <> [] -> length cs = length x0s -> length ks = length x0s ->
+  Forall (fun c => 0 < c) cs -> Forall (fun k => 2 <= k)%Z ks ->
+  length (geo_dims xa) = length ks -> nodupb (geo_dims xa) = true ->
+  match all_some (xcunits xa) with Some u => length u = length ks | None => True end ->
+  set_vdims k (xvdims xa) = OK vd -> shape_ok xa k ks = true ->
+  exists g, from_xarray xa = OK g /\
+    Forall2 Qeq (pmin (reg (fmesh g))) (map2 (fun x0 c => x0 - c / 2) x0s cs) /\
+    Forall2 Qeq (pmax (reg (fmesh g))) (map3 (fun x0 c k => x0 + (inject_Z k - (1 # 2)) * c) x0s cs ks) /\
+    n (fmesh g) = ks /\ dims (reg (fmesh g)) = geo_dims xa /\
+    units (reg (fmesh g)) = eff_units xa (length ks) /\ tf (reg (fmesh g)) = eff_tf xa /\
+    fnvdim g = k /\ fvdims g = vd /\ fdtype g = xdtype xa /\ fdata g = xdata xa.
+Proof. exact rebuild_nd. Qed.
+Print Assumptions C17_rebuild.
+
+Example C17_rebuild_nonvacuous : exists g, from_xarray ex_raw = OK g /\
+  Forall2 Qeq (pmin (reg (fmesh g))) [0 - 1 / 2; 1 - (1 # 2) / 2] /\ n (fmesh g) = [2%Z; 3%Z].
+Proof. exact ex_raw_rebuild. Qed.
+Print Assumptions C17_rebuild_nonvacuous.
+
+(* the eight subsets of {cell, pmin, pmax}: a present attribute is used verbatim; an absent corner
+   is taken half an effective cell beyond the outermost coordinate; an absent cell is the mean
+   spacing (needs >= 2 coordinates on every axis) *)
+Theorem C17_import_with_cell_pmin_pmax : forall (xa : dataarray) (k : Z) (cs p q : list Q) (ks : list Z) (vd : option (list string)),
+  a_nvdim xa = Some k ->
+  (1 <= k)%Z ->
+  ((1 < k)%Z -> In vdims_name (xdims xa)) ->
+  forallb (evenly 1) (xcoords xa) = true ->
+  a_cell xa = Some cs ->
+  a_pmin xa = Some p ->
+  a_pmax xa = Some q ->
+  axes p q ks cs ->
+  ks <> [] ->
+  length (geo_dims xa) = length ks ->
+  nodupb (geo_dims xa) = true ->
+  match all_some (xcunits xa) with Some u => length u = length ks | None => True end ->
+  set_vdims k (xvdims xa) = OK vd ->
+  shape_ok xa k ks = true ->
+  from_xarray xa =
+  OK (mkField (mkMesh (mkRegion p q (geo_dims xa)
+                                (eff_units xa (length ks)) (eff_tf xa)) ks "" [])
+              k vd (xdtype xa) None (xdata xa)).
+Proof. exact import_with_cell_pmin_pmax. Qed.
+Print Assumptions C17_import_with_cell_pmin_pmax.
+
+Theorem C17_import_with_cell_pmin : forall (xa : dataarray) (k : Z) (cs p : list Q) (ks : list Z) (vd : option (list string)),
+  a_nvdim xa = Some k ->
+  (1 <= k)%Z ->
+  ((1 < k)%Z -> In vdims_name (xdims xa)) ->
+  forallb (evenly 1) (xcoords xa) = true ->
+  a_cell xa = Some cs ->
+  a_pmin xa = Some p ->
+  a_pmax xa = None ->
+  axes p (map2 (fun v cc => last v 0 + cc / 2) (xcoords xa) cs) ks cs ->
+  ks <> [] ->
+  length (geo_dims xa) = length ks ->
+  nodupb (geo_dims xa) = true ->
+  match all_some (xcunits xa) with Some u => length u = length ks | None => True end ->
+  set_vdims k (xvdims xa) = OK vd ->
+  shape_ok xa k ks = true ->
+  from_xarray xa =
+  OK (mkField (mkMesh (mkRegion p (map2 (fun v cc => last v 0 + cc / 2) (xcoords xa) cs) (geo_dims xa)
+                                (eff_units xa (length ks)) (eff_tf xa)) ks "" [])
+              k vd (xdtype xa) None (xdata xa)).
+Proof. exact import_with_cell_pmin. Qed.
+Print Assumptions C17_import_with_cell_pmin.
+
+Theorem C17_import_with_cell_pmax : forall (xa : dataarray) (k : Z) (cs q : list Q) (ks : list Z) (vd : option (list string)),
+  a_nvdim xa = Some k ->
+  (1 <= k)%Z ->
+  ((1 < k)%Z -> In vdims_name (xdims xa)) ->
+  forallb (evenly 1) (xcoords xa) = true ->
+  a_cell xa = Some cs ->
+  a_pmin xa = None ->
+  a_pmax xa = Some q ->
+  axes (map2 (fun v cc => hd 0 v - cc / 2) (xcoords xa) cs) q ks cs ->
+  ks <> [] ->
+  length (geo_dims xa) = length ks ->
+  nodupb (geo_dims xa) = true ->
+  match all_some (xcunits xa) with Some u => length u = length ks | None => True end ->
+  set_vdims k (xvdims xa) = OK vd ->
+  shape_ok xa k ks = true ->
+  from_xarray xa =
+  OK (mkField (mkMesh (mkRegion (map2 (fun v cc => hd 0 v - cc / 2) (xcoords xa) cs) q (geo_dims xa)
+                                (eff_units xa (length ks)) (eff_tf xa)) ks "" [])
+              k vd (xdtype xa) None (xdata xa)).
+Proof. exact import_with_cell_pmax. Qed.
+Print Assumptions C17_import_with_cell_pmax.
+
+Theorem C17_import_with_cell : forall (xa : dataarray) (k : Z) (cs : list Q) (ks : list Z) (vd : option (list string)),
+  a_nvdim xa = Some k ->
+  (1 <= k)%Z ->
+  ((1 < k)%Z -> In vdims_name (xdims xa)) ->
+  forallb (evenly 1) (xcoords xa) = true ->
+  a_cell xa = Some cs ->
+  a_pmin xa = None ->
+  a_pmax xa = None ->
+  axes (map2 (fun v cc => hd 0 v - cc / 2) (xcoords xa) cs) (map2 (fun v cc => last v 0 + cc / 2) (xcoords xa) cs) ks cs ->
+  ks <> [] ->
+  length (geo_dims xa) = length ks ->
+  nodupb (geo_dims xa) = true ->
+  match all_some (xcunits xa) with Some u => length u = length ks | None => True end ->
+  set_vdims k (xvdims xa) = OK vd ->
+  shape_ok xa k ks = true ->
+  from_xarray xa =
+  OK (mkField (mkMesh (mkRegion (map2 (fun v cc => hd 0 v - cc / 2) (xcoords xa) cs) (map2 (fun v cc => last v 0 + cc / 2) (xcoords xa) cs) (geo_dims xa)
+                                (eff_units xa (length ks)) (eff_tf xa)) ks "" [])
+              k vd (xdtype xa) None (xdata xa)).
+Proof. exact import_with_cell. Qed.
+Print Assumptions C17_import_with_cell.
+
+Theorem C17_import_with_pmin_pmax : forall (xa : dataarray) (k : Z) (cs p q : list Q) (ks : list Z) (vd : option (list string)),
+  a_nvdim xa = Some k ->
+  (1 <= k)%Z ->
+  ((1 < k)%Z -> In vdims_name (xdims xa)) ->
+  forallb (evenly 1) (xcoords xa) = true ->
+  a_cell xa = None ->
+  existsb (Z.eqb 1) (removelast (xshape xa)) = false ->
+  all_some (map mean_spacing (xcoords xa)) = Some cs ->
+  a_pmin xa = Some p ->
+  a_pmax xa = Some q ->
+  axes p q ks cs ->
+  ks <> [] ->
+  length (geo_dims xa) = length ks ->
+  nodupb (geo_dims xa) = true ->
+  match all_some (xcunits xa) with Some u => length u = length ks | None => True end ->
+  set_vdims k (xvdims xa) = OK vd ->
+  shape_ok xa k ks = true ->
+  from_xarray xa =
+  OK (mkField (mkMesh (mkRegion p q (geo_dims xa)
+                                (eff_units xa (length ks)) (eff_tf xa)) ks "" [])
+              k vd (xdtype xa) None (xdata xa)).
+Proof. exact import_with_pmin_pmax. Qed.
+Print Assumptions C17_import_with_pmin_pmax.
+
+Theorem C17_import_with_pmin : forall (xa : dataarray) (k : Z) (cs p : list Q) (ks : list Z) (vd : option (list string)),
+  a_nvdim xa = Some k ->
+  (1 <= k)%Z ->
+  ((1 < k)%Z -> In vdims_name (xdims xa)) ->
+  forallb (evenly 1) (xcoords xa) = true ->
+  a_cell xa = None ->
+  existsb (Z.eqb 1) (removelast (xshape xa)) = false ->
+  all_some (map mean_spacing (xcoords xa)) = Some cs ->
+  a_pmin xa = Some p ->
+  a_pmax xa = None ->
+  axes p (map2 (fun v cc => last v 0 + cc / 2) (xcoords xa) cs) ks cs ->
+  ks <> [] ->
+  length (geo_dims xa) = length ks ->
+  nodupb (geo_dims xa) = true ->
+  match all_some (xcunits xa) with Some u => length u = length ks | None => True end ->
+  set_vdims k (xvdims xa) = OK vd ->
+  shape_ok xa k ks = true ->
+  from_xarray xa =
+  OK (mkField (mkMesh (mkRegion p (map2 (fun v cc => last v 0 + cc / 2) (xcoords xa) cs) (geo_dims xa)
+                                (eff_units xa (length ks)) (eff_tf xa)) ks "" [])
+              k vd (xdtype xa) None (xdata xa)).
+Proof. exact import_with_pmin. Qed.
+Print Assumptions C17_import_with_pmin.
+
+Theorem C17_import_with_pmax : forall (xa : dataarray) (k : Z) (cs q : list Q) (ks : list Z) (vd : option (list string)),
+  a_nvdim xa = Some k ->
+  (1 <= k)%Z ->
+  ((1 < k)%Z -> In vdims_name (xdims xa)) ->
+  forallb (evenly 1) (xcoords xa) = true ->
+  a_cell xa = None ->
+  existsb (Z.eqb 1) (removelast (xshape xa)) = false ->
+  all_some (map mean_spacing (xcoords xa)) = Some cs ->
+  a_pmin xa = None ->
+  a_pmax xa = Some q ->
+  axes (map2 (fun v cc => hd 0 v - cc / 2) (xcoords xa) cs) q ks cs ->
+  ks <> [] ->
+  length (geo_dims xa) = length ks ->
+  nodupb (geo_dims xa) = true ->
+  match all_some (xcunits xa) with Some u => length u = length ks | None => True end ->
+  set_vdims k (xvdims xa) = OK vd ->
+  shape_ok xa k ks = true ->
+  from_xarray xa =
+  OK (mkField (mkMesh (mkRegion (map2 (fun v cc => hd 0 v - cc / 2) (xcoords xa) cs) q (geo_dims xa)
+                                (eff_units xa (length ks)) (eff_tf xa)) ks "" [])
+              k vd (xdtype xa) None (xdata xa)).
+Proof. exact import_with_pmax. Qed.
+Print Assumptions C17_import_with_pmax.
+
+Theorem C17_import_with_no_geometry_attrs : forall (xa : dataarray) (k : Z) (cs : list Q) (ks : list Z) (vd : option (list string)),
+  a_nvdim xa = Some k ->
+  (1 <= k)%Z ->
+  ((1 < k)%Z -> In vdims_name (xdims xa)) ->
+  forallb (evenly 1) (xcoords xa) = true ->
+  a_cell xa = None ->
+  existsb (Z.eqb 1) (removelast (xshape xa)) = false ->
+  all_some (map mean_spacing (xcoords xa)) = Some cs ->
+  a_pmin xa = None ->
+  a_pmax xa = None ->
+  axes (map2 (fun v cc => hd 0 v - cc / 2) (xcoords xa) cs) (map2 (fun v cc => last v 0 + cc / 2) (xcoords xa) cs) ks cs ->
+  ks <> [] ->
+  length (geo_dims xa) = length ks ->
+  nodupb (geo_dims xa) = true ->
+  match all_some (xcunits xa) with Some u => length u = length ks | None => True end ->
+  set_vdims k (xvdims xa) = OK vd ->
+  shape_ok xa k ks = true ->
+  from_xarray xa =
+  OK (mkField (mkMesh (mkRegion (map2 (fun v cc => hd 0 v - cc / 2) (xcoords xa) cs) (map2 (fun v cc => last v 0 + cc / 2) (xcoords xa) cs) (geo_dims xa)
+                                (eff_units xa (length ks)) (eff_tf xa)) ks "" [])
+              k vd (xdtype xa) None (xdata xa)).
+Proof. exact import_with_no_geometry_attrs. Qed.
+Print Assumptions C17_import_with_no_geometry_attrs.
+
+(* the single-cell rule, positively: with the cell attribute a one-coordinate axis is imported *)
+Example C17_import_with_cell_nonvacuous : exists g, from_xarray ex_single = OK g /\
+  pmin (reg (fmesh g)) = [5 - 2 / 2] /\ pmax (reg (fmesh g)) = [5 + 2 / 2] /\ n (fmesh g) = [1%Z].
+Proof. exact ex_single_import. Qed.
+Print Assumptions C17_import_with_cell_nonvacuous.
